@@ -148,6 +148,9 @@ class BitstreamValidator(object):
         # The index to use in the filename of the next decoded picture
         self._next_picture_index = 0
 
+        # The (metadata, picture) filenames written so far
+        self._written_filenames = []
+
         # Is the status line currently visible
         self._status_line_visible = False
 
@@ -210,6 +213,17 @@ class BitstreamValidator(object):
     def _output_picture(self, picture, video_parameters, picture_coding_mode):
         filename = self._output_filename % (self._next_picture_index,)
         self._next_picture_index += 1
+
+        # Never overwrite a picture written earlier in this run (some printf
+        # templates, e.g. 'picture_%.1s.raw', repeat names for later numbers)
+        names = get_metadata_and_picture_filenames(filename)
+        if names in self._written_filenames:
+            raise BitstreamValidator._PictureOutputError(
+                "--output gives two decoded pictures the same name: {}".format(
+                    names[1]
+                )
+            )
+        self._written_filenames.append(names)
 
         try:
             write(
